@@ -36,8 +36,14 @@ def main():
         subprocess.check_call("git -C /repo archive HEAD | tar -x -C %s" % d, shell=True)
         res["base_commit"] = subprocess.check_output("git -C /repo rev-parse --short HEAD", shell=True).decode().strip()
         demo_src = os.path.join(mdir, demo)
-        shutil.copy(demo_src, os.path.join(d, target, os.path.basename(demo)))
+        is_dir = os.path.isdir(demo_src)
+        if is_dir:
+            shutil.copytree(demo_src, os.path.join(d, target))
+        else:
+            shutil.copy(demo_src, os.path.join(d, target, os.path.basename(demo)))
         run = "go test -vet=off -count=1 -run '%s' %s" % (regex, pkg)
+        if regex == "RUN":
+            run = "go run %s" % pkg
         rc, out = sh(run, d)
         res["ran"].append({"cmd": run + "   # without the change", "exit": rc})
         res["demo_passes_without"] = rc == 0
@@ -55,7 +61,10 @@ def main():
         res["demo_fails_with"] = rc != 0
         if rc == 0:
             print("DEMO STILL PASSES WITH PATCH")
-        os.remove(os.path.join(d, target, os.path.basename(demo)))
+        if is_dir:
+            shutil.rmtree(os.path.join(d, target))
+        else:
+            os.remove(os.path.join(d, target, os.path.basename(demo)))
         rc, out = sh(UNIT, d)
         res["ran"].append({"cmd": UNIT + "   # with the change", "exit": rc})
         res["unit_tests_pass_with"] = rc == 0
@@ -78,7 +87,10 @@ def main():
             sd = "/verif/seeded/%s-%s" % (prop, name)
             os.makedirs(sd, exist_ok=True)
             shutil.copy(os.path.join(mdir, "patch.diff"), sd)
-            shutil.copy(demo_src, sd)
+            if is_dir:
+                shutil.copytree(demo_src, os.path.join(sd, os.path.basename(demo_src.rstrip("/"))), dirs_exist_ok=True)
+            else:
+                shutil.copy(demo_src, sd)
             if os.path.exists(os.path.join(mdir, "README.md")):
                 shutil.copy(os.path.join(mdir, "README.md"), sd)
             json.dump(res, open(os.path.join(sd, "meta.json"), "w"), indent=1)
